@@ -1,3 +1,4 @@
+import Dawgs.Props.C07
 import Dawgs.Props.C08
 import Dawgs.Props.C09
 import Dawgs.Props.C16
